@@ -449,11 +449,6 @@ Proof. intros d ls. apply (relay_is_complete (TDelay d) d true). split; reflexiv
 Theorem observe_on_is_complete : forall ls, relay_complete 0 false ls (run_timed TObserveOn ls) = true.
 Proof. intros ls. apply (relay_is_complete TObserveOn 0 false). split; reflexivity. Qed.
 
-Theorem timed_complete_holds : forall o ls, timed_complete o ls (run_timed o ls) = true.
-Proof.
-  intros o ls. destruct o; try reflexivity; cbn [timed_complete]; [apply delay_is_complete|apply observe_on_is_complete].
-Qed.
-
 (* the predicate does reject: a run in which the completion's task is polled, due, and nothing
    comes out (what an operator that drops the completion of an idle stream would produce) *)
 Example complete_rejects_a_lost_completion :
@@ -471,3 +466,215 @@ Example complete_waits_for_the_timer :
   relay_complete 5 true [LSrc (Next (VZ 1)); LRun 0; LAdv 4; LRun 0; LAdv 1; LRun 0]
     [TMark 0; TMark 1; TMark 2; TMark 3; TMark 4; TMark 5] = false.
 Proof. split; reflexivity. Qed.
+
+(* ================= delay_subscription / subscribe_on ================= *)
+
+Definition alist (a : option N) : list (nat * N) := match a with Some x => [(0%nat, x)] | None => [] end.
+
+Record RQ (d : N) (s : tsys) (q : qstate) : Prop := {
+  rq_now : q_now q = now s;
+  rq_done : q_done q = src_done s;
+  rq_jobs : jobs s = [JSubscribe];
+  rq_main : main_task s = Some 0%nat;
+  rq_owed : q_owed q = false;
+  rq_on : q_sub q = true -> q_unsub q = false -> src_done s = false -> src_on s = true;
+  rq_task : exists tk k, tasks s = [tk] /\ t_body tk = BOnce k /\
+      (q_sub q = false -> q_unsub q = false -> t_keep tk = true /\ stage_ok d (alist (q_armed q)) 0 tk)
+}.
+
+Ltac qf := cbn [q_now q_cur q_sub q_done q_unsub q_armed q_owed] in *.
+
+Lemma q_walk_inert d ls : forall out q, inert out -> walk (q_step d ls) q out = Some q.
+Proof.
+  induction out as [|x r IH]; intros q H; [reflexivity|]. cbn [walk].
+  assert (Hx : q_step d ls q x = Some q).
+  { pose proof (H x (or_introl eq_refl)) as Hx. destruct x; try contradiction; reflexivity. }
+  rewrite Hx. apply IH. intros y Hy. apply H. right. exact Hy.
+Qed.
+
+Definition qsim (o : top) (d : N) (ls : list tlab) (s : tsys) (q : qstate) (l : tlab) : Prop :=
+  exists q', walk (q_step d ls) (q_label d q (Some l)) (snd (tstep o s l)) = Some q' /\ RQ d (fst (tstep o s l)) q'.
+
+Lemma q_src o d ls s q e : pass_op o d -> RQ d s q -> qsim o d ls s q (LSrc e).
+Proof.
+  intros Ho [R1 R2 R3 R4 R5 R6 (tk & k & T1 & T2 & T3)]. unfold qsim. cbn [tstep q_label]. rewrite R2.
+  destruct (src_done s) eqn:Ed.
+  - cbn [fst snd walk]. eexists. split; [reflexivity|]. constructor; qf; auto.
+    + intros _ _ H. rewrite Ed in H. discriminate.
+    + exists tk, k. auto.
+  - assert (Hs : on_src o = fun s e => (s, [TOut (now s) e])).
+    { destruct o; cbn [pass_op] in Ho; try contradiction; reflexivity. }
+    destruct (src_on s) eqn:Eo.
+    + rewrite Hs. cbn [fst snd walk q_step]. eexists. split; [reflexivity|]. unfold q_deliver.
+      constructor; qf; destruct (is_term e) eqn:Et; cbn [upd_src now tasks jobs src_done src_on main_task]; auto;
+        try (intros _ _ H; discriminate H); try (exists tk, k; auto).
+    + (* not subscribed to the input: nothing can be owed *)
+      assert (Hno : q_sub q && negb (q_unsub q) = false).
+      { destruct (q_sub q) eqn:E1; [|reflexivity]. destruct (q_unsub q) eqn:E2; [reflexivity|].
+        pose proof (R6 eq_refl eq_refl eq_refl) as H. discriminate H. }
+      rewrite Hno. cbn [fst snd walk]. eexists. split; [reflexivity|].
+      constructor; qf; destruct (is_term e) eqn:Et; cbn [upd_src now tasks jobs src_done src_on main_task]; auto;
+        try (intros _ _ H; discriminate H); try (exists tk, k; auto).
+      intros H1 H2 _. rewrite H1, H2 in Hno. discriminate.
+Qed.
+
+Lemma q_run o d ls s q t : pass_op o d -> RQ d s q -> qsim o d ls s q (LRun t).
+Proof.
+  intros Ho [R1 R2 R3 R4 R5 R6 (tk & k & T1 & T2 & T3)]. unfold qsim.
+  destruct t as [|t].
+  2: { (* there is no other task *)
+    assert (Hst : tstep o s (LRun (S t)) = (s, [])).
+    { cbn [tstep]. rewrite T1. destruct t; reflexivity. }
+    rewrite Hst. cbn [fst snd walk q_label]. eexists. split; [reflexivity|].
+    constructor; qf; auto. exists tk, k. auto. }
+  (* the subscribing task is polled *)
+  assert (Hst : tstep o s (LRun 0) =
+                let '(tk1, res) := poll (now s) tk in
+                match res with
+                | PNone => (upd_tasks s [tk1], [])
+                | PRun _ _ _ => (upd_src (upd_tasks s [tk1]) true (src_done s), [])
+                end).
+  { cbn [tstep]. rewrite T1, R3. cbn [nth_error set_nth].
+    pose proof (poll_once (now s) tk k T2) as P. destruct (poll (now s) tk) as [tk1 res].
+    destruct P as [(-> & _)|(-> & _)]; reflexivity. }
+  rewrite Hst. clear Hst.
+  pose proof (poll_body_kept (now s) tk k T2) as Hb1.
+  pose proof (poll_once (now s) tk k T2) as PO.
+  cbn [q_label].
+  destruct (negb (q_sub q) && negb (q_unsub q)) eqn:Ewait.
+  - apply Bool.andb_true_iff in Ewait. destruct Ewait as [E1 E2].
+    apply Bool.negb_true_iff in E1. apply Bool.negb_true_iff in E2.
+    destruct (T3 E1 E2) as [Hk Hs].
+    pose proof (poll_pending (now s) tk k d (alist (q_armed q)) 0 Hk T2 Hs) as P. unfold due_now in P.
+    rewrite R1.
+    destruct (q_armed q) as [a|] eqn:Ea; cbn [alist armed_at Nat.eqb] in P.
+    + destruct (a + d <=? now s) eqn:Edue.
+      * destruct (poll (now s) tk) as [tk1 res]. cbn [fst snd] in *. subst res. cbn [fst snd walk].
+        eexists. split; [reflexivity|]. constructor; qf; cbn [upd_src upd_tasks now tasks jobs src_done src_on main_task]; auto.
+        exists tk1, k. repeat split; auto; discriminate.
+      * destruct P as (P1 & P2 & P3 & P4). destruct (poll (now s) tk) as [tk1 res]. cbn [fst snd] in *. subst res. cbn [fst snd walk].
+        eexists. split; [reflexivity|]. constructor; qf; cbn [upd_src upd_tasks now tasks jobs src_done src_on main_task]; auto.
+        -- intros H. discriminate H.
+        -- exists tk1, k. repeat split; auto.
+    + destruct (d =? 0) eqn:Ed.
+      * destruct (poll (now s) tk) as [tk1 res]. cbn [fst snd] in *. subst res. cbn [fst snd walk].
+        eexists. split; [reflexivity|]. constructor; qf; cbn [upd_src upd_tasks now tasks jobs src_done src_on main_task]; auto.
+        exists tk1, k. repeat split; auto; discriminate.
+      * destruct P as (P1 & P2 & P3 & P4). destruct (poll (now s) tk) as [tk1 res]. cbn [fst snd] in *. subst res. cbn [fst snd walk].
+        eexists. split; [reflexivity|]. constructor; qf; cbn [upd_src upd_tasks now tasks jobs src_done src_on main_task]; auto.
+        -- intros H. discriminate H.
+        -- exists tk1, k. repeat split; auto.
+  - (* already subscribed, or unsubscribed: whatever the poll does *)
+    assert (Hvac : q_sub q = false -> q_unsub q = false -> False).
+    { intros H1 H2. rewrite H1, H2 in Ewait. discriminate. }
+    destruct (poll (now s) tk) as [tk1 res]. cbn [fst] in Hb1.
+    destruct res; cbn [fst snd walk]; (eexists; split; [reflexivity|]);
+      constructor; qf; cbn [upd_src upd_tasks now tasks jobs src_done src_on main_task]; auto.
+    all: exists tk1, k; split; [reflexivity|]; split; [exact Hb1|]; intros H1 H2; destruct (Hvac H1 H2).
+Qed.
+
+Lemma q_unsub_label o d ls s q : pass_op o d -> RQ d s q -> qsim o d ls s q LUnsub.
+Proof.
+  intros Ho [R1 R2 R3 R4 R5 R6 (tk & k & T1 & T2 & T3)]. unfold qsim.
+  assert (Hon : tstep o s LUnsub = match main_task s with Some t => unsub_handle o s t | None => (s, []) end).
+  { destruct o; cbn [pass_op] in Ho; try contradiction; reflexivity. }
+  rewrite Hon, R4. clear Hon.
+  pose proof (unsub_handle_eff o s 0) as (E1 & E2 & E3 & E4 & E5).
+  pose proof (unsub_handle_frame o s 0) as (G1 & G2 & G3 & G4).
+  pose proof (unsub_handle_inert o s 0) as In1.
+  destruct (unsub_handle o s 0) as [s' out]. cbn [fst snd] in *.
+  rewrite (q_walk_inert d ls out _ In1). eexists. split; [reflexivity|].
+  assert (Ht : exists tk', tasks s' = [tk'] /\ t_body tk' = BOnce k).
+  { rewrite T1 in E3. cbn [length] in E3. destruct (tasks s') as [|tk' [|x r]] eqn:Ets; try discriminate.
+    exists tk'. split; [reflexivity|]. destruct (E5 0%nat tk' eq_refl) as (tk0 & H0 & Hs & _).
+    rewrite T1 in H0. inversion H0; subst tk0. destruct Hs as [->| ->]; exact T2. }
+  destruct Ht as (tk' & Ht1 & Ht2).
+  constructor; cbn [q_label]; qf; try congruence.
+  - exists tk', k. split; [exact Ht1|]. split; [exact Ht2|]. intros _ H. discriminate H.
+Qed.
+
+Lemma q_adv o d ls s q dt : RQ d s q -> qsim o d ls s q (LAdv dt).
+Proof.
+  intros [R1 R2 R3 R4 R5 R6 (tk & k & T1 & T2 & T3)]. unfold qsim. cbn [tstep fst snd walk q_label]. eexists. split; [reflexivity|].
+  constructor; qf; cbn [upd_now now tasks jobs src_done src_on main_task]; auto; [congruence|exists tk, k; auto].
+Qed.
+
+Lemma q_other o d ls s q l : pass_op o d -> RQ d s q ->
+  match l with LSrc _ | LRun _ | LAdv _ | LUnsub => False | _ => True end -> qsim o d ls s q l.
+Proof.
+  intros Ho [R1 R2 R3 R4 R5 R6 (tk & k & T1 & T2 & T3)] Hl. unfold qsim.
+  assert (Hst : exists out, inert out /\ (tstep o s l = (s, out) \/ (l = LFinish /\ tstep o s l = (upd_fin s, out)))).
+  { destruct l; try contradiction.
+    - exists [TRet (sub_closed o s)]. split; [apply inert_one; exact I|left; reflexivity].
+    - exists []. split; [apply inert_nil|right; split; reflexivity].
+    - exists []. split; [apply inert_nil|left; destruct o; cbn [pass_op] in Ho; try contradiction; reflexivity].
+    - exists []. split; [apply inert_nil|left; destruct o; cbn [pass_op] in Ho; try contradiction; reflexivity].
+    - exists []. split; [apply inert_nil|left; destruct o; cbn [pass_op] in Ho; try contradiction; reflexivity].
+    - exists []. split; [apply inert_nil|left; destruct o; cbn [pass_op] in Ho; try contradiction; reflexivity].
+    - exists []. split; [apply inert_nil|left; destruct o; cbn [pass_op] in Ho; try contradiction; reflexivity]. }
+  destruct Hst as (out & Hin & [Hst|[-> Hst]]); rewrite Hst; cbn [fst snd]; rewrite (q_walk_inert d ls out _ Hin);
+    (eexists; split; [reflexivity|]).
+  - constructor; try (destruct l; try contradiction; cbn [q_label]; qf; assumption).
+    + destruct l; try contradiction; reflexivity.
+    + exists tk, k. split; [exact T1|]. split; [exact T2|]. destruct l; try contradiction; exact T3.
+  - constructor; cbn [q_label upd_fin now tasks jobs src_done src_on main_task]; qf; auto. exists tk, k. auto.
+Qed.
+
+Lemma q_step_sim o d : pass_op o d ->
+  forall ls_full done l r s q, ls_full = done ++ l :: r -> RQ d s q ->
+    exists q', walk (q_step d ls_full) q (TMark (length done) :: snd (tstep o s l)) = Some q' /\
+               RQ d (fst (tstep o s l)) q'.
+Proof.
+  intros Ho ls_full done l r s q E R.
+  cbn [walk q_step]. rewrite (rq_owed _ _ _ R), E, nth_error_mid. rewrite <- E.
+  change (qsim o d ls_full s q l).
+  destruct l.
+  - apply q_src; assumption.
+  - apply q_run; assumption.
+  - apply q_adv; assumption.
+  - apply q_unsub_label; assumption.
+  - apply q_other; auto.
+  - apply q_other; auto.
+  - apply q_other; auto.
+  - apply q_other; auto.
+  - apply q_other; auto.
+  - apply q_other; auto.
+  - apply q_other; auto.
+Qed.
+
+Lemma rq_init o d : pass_op o d -> RQ d (tinit o) q0.
+Proof.
+  intros Ho. destruct o; cbn [pass_op] in Ho; try contradiction; cbn [tinit schedule upd_main upd_src];
+    (constructor; cbn; auto; try discriminate;
+     eexists; eexists; split; [reflexivity|]; split; [reflexivity|]; intros _ _; split; [reflexivity|];
+     unfold stage_ok; cbn; auto).
+Qed.
+
+Lemma pass_is_complete o d : pass_op o d -> forall ls, pass_complete d ls (run_timed o ls) = true.
+Proof.
+  intros Ho ls. unfold pass_complete, run_timed.
+  destruct (BufferLaws.run_sim_state (q_step d) o (RQ d) (q_step_sim o d Ho) ls [] (tinit o) q0 ls eq_refl (rq_init o d Ho))
+    as (q' & s' & Hw & R).
+  cbn [length] in Hw. rewrite Hw, (rq_owed _ _ _ R). reflexivity.
+Qed.
+
+(* delay_subscription / subscribe_on: once the subscribing task has been polled when due, every
+   notification of the input reaches the subscriber in the call that brings it *)
+Theorem delay_subscription_is_complete : forall d ls, pass_complete d ls (run_timed (TDelaySubscription d) ls) = true.
+Proof. intros d ls. apply (pass_is_complete (TDelaySubscription d) d). reflexivity. Qed.
+
+Theorem subscribe_on_is_complete : forall ls, pass_complete 0 ls (run_timed TSubscribeOn ls) = true.
+Proof. intros ls. apply (pass_is_complete TSubscribeOn 0). reflexivity. Qed.
+
+Theorem timed_complete_holds : forall o ls, timed_complete o ls (run_timed o ls) = true.
+Proof.
+  intros o ls. destruct o; try reflexivity; cbn [timed_complete];
+    [apply delay_is_complete|apply observe_on_is_complete|apply delay_subscription_is_complete|apply subscribe_on_is_complete].
+Qed.
+
+Example pass_complete_rejects_a_swallowed_item :
+  pass_complete 3 [LRun 0; LAdv 3; LRun 0; LSrc (Next (VZ 7))] [TMark 0; TMark 1; TMark 2; TMark 3] = false /\
+  pass_complete 3 [LRun 0; LAdv 3; LRun 0; LSrc (Next (VZ 7))] [TMark 0; TMark 1; TMark 2; TMark 3; TOut 3 (Next (VZ 7))] = true /\
+  (* not yet subscribed: nothing is owed *)
+  pass_complete 3 [LRun 0; LAdv 2; LRun 0; LSrc (Next (VZ 7))] [TMark 0; TMark 1; TMark 2; TMark 3] = true.
+Proof. repeat split; reflexivity. Qed.
